@@ -2,6 +2,8 @@ package main
 
 import (
 	"crypto/sha1"
+	"crypto/sha256"
+	"encoding/base64"
 	"fmt"
 	"regexp"
 	"sort"
@@ -134,6 +136,22 @@ func namesWF(fs []kv) bool {
 	return true
 }
 
+// embeddedHash decides embedded_hash (DirGlob.v) with real SHA-256: one of the
+// directory's hash streams contains base64(sha256(.)) of one of its streams.
+func embeddedHash(fs []kv) bool {
+	ss := specStreams(fs)
+	for _, s := range ss {
+		h := sha256.Sum256([]byte(s.stream))
+		b := base64.StdEncoding.EncodeToString(h[:])
+		for _, t := range ss {
+			if strings.Contains(t.stream, b) {
+				return true
+			}
+		}
+	}
+	return false
+}
+
 func namesOK(fs []kv) bool {
 	for _, f := range fs {
 		if !nameParses(f.n) {
@@ -237,6 +255,10 @@ func (g *gen) check(kind string, base []kv, baseHF migrate.HashFile, baseSum str
 		}
 	case *sum == baseSum:
 		w.NonTrivial(key(st))
+		// third disjunct of C06_detect_glob / _plain_exact, decided on the original directory
+		if embeddedHash(base) {
+			w.Count("hyp:embedded_hash(original quotes one of its stream hashes)")
+		}
 		// which detection theorem's hypotheses this case meets
 		switch {
 		case namesOK(base) && namesWF(base) && namesWF(cur) && plain(base) && plain(cur):
